@@ -514,6 +514,40 @@ func checkC05Rest(c *core.Ctx) {
 		}
 	}
 
+	// ---- R5.8: the parser's Truncated flag is reset on every path before anything is decoded
+	r8 := c.Rule("R5.8", "T", "DecodeLayers resets Truncated before any decoding call on every path")
+	if dl := p.Func("", "DecodingLayerParser.DecodeLayers"); dl == nil {
+		r8.Missing("DecodingLayerParser.DecodeLayers", "not found")
+	} else {
+		isReset := func(i ssa.Instruction) bool {
+			st, ok := i.(*ssa.Store)
+			if !ok {
+				return false
+			}
+			fa, ok := st.Addr.(*ssa.FieldAddr)
+			if !ok || core.FieldOfAddr(fa).Name() != "Truncated" {
+				return false
+			}
+			b, ok := core.ConstBool(st.Val)
+			return ok && !b
+		}
+		esc := core.ForwardSearch(dl, nil, func(i ssa.Instruction) bool {
+			if _, isDefer := i.(*ssa.Defer); isDefer {
+				return false
+			}
+			if _, isRet := i.(*ssa.Return); isRet {
+				return true
+			}
+			call, ok := i.(*ssa.Call)
+			return ok && call.Call.StaticCallee() == nil || (ok && p.InModule(call.Call.StaticCallee()))
+		}, isReset)
+		pos := p.Pos(dl.Pos())
+		if esc != nil {
+			pos = p.InstrPos(esc)
+		}
+		r8.Check(esc == nil, "gopacket.(*DecodingLayerParser).DecodeLayers/truncated-reset", pos, "Truncated := false precedes every decoding call and return", "a path decodes (or returns) without resetting Truncated first: after one truncated packet every later packet decoded on that path still reports Truncated, unlike NewPacket")
+	}
+
 	// ---- R5.7: the parser's bound decode function is rebuilt whenever what it was built from changes
 	r7 := c.Rule("R5.7", "T", "DecodingLayerParser: every store to dlc/first/df is followed on every path by a store to decodeFunc (the closure captures the container by value)")
 	{
